@@ -1,9 +1,17 @@
 import GenjaxModel.Model.SelIO
+import GenjaxModel.Model.GfiIO
+import GenjaxModel.Model.ResampleIO
 /-! Line-protocol driver: one S-expression per input line, one per output line. -/
 open Genjax
 
 def dispatch (e : SExp) : SExp :=
   match stepSel e with
+  | some r => r
+  | none =>
+  match stepGfi e with
+  | some r => r
+  | none =>
+  match stepResample e with
   | some r => r
   | none => .list [.atom "bad-op"]
 
